@@ -7,8 +7,8 @@ import json, os, subprocess, sys
 TAG = os.environ.get("SCAN_TAG", "scan")
 V, R = "/tmp/%s_verif" % TAG, "/tmp/%s_repo" % TAG
 sys.path.insert(0, "/verif/tools")
-RELATED = {"C01": ["C01", "C02", "C03", "C14"], "C02": ["C02", "C01", "C03", "C08"], "C03": ["C03", "C01", "C02", "C08"], "C04": ["C04", "C01"],
-           "C05": ["C05"], "C06": ["C06", "C01"], "C07": ["C07", "C08", "C09"], "C08": ["C08", "C02"], "C09": ["C09"], "C10": ["C10", "C01", "C09", "C07", "C15"],
+RELATED = {"C01": ["C01", "C02", "C03", "C14", "C12"], "C02": ["C02", "C01", "C03", "C08"], "C03": ["C03", "C01", "C02", "C08"], "C04": ["C04", "C01"],
+           "C05": ["C05"], "C06": ["C06", "C01", "C12"], "C07": ["C07", "C08", "C09"], "C08": ["C08", "C02"], "C09": ["C09"], "C10": ["C10", "C01", "C09", "C07", "C15"],
            "C11": ["C11", "C01", "C17"], "C12": ["C12"], "C13": ["C13", "C17", "C19"], "C14": ["C14"], "C15": ["C15", "C02", "C14", "C09", "C01"], "C16": ["C16", "C14", "C12"],
            "C17": ["C17", "C12"], "C18": ["C18", "C08"], "C19": ["C19", "C20"], "C20": ["C20", "C05"]}
 def sh(cmd, **kw):
